@@ -424,8 +424,17 @@ func c15Received(r *fw.R, d c15Desc) {
 		payload := genPayload(rng, psize, rng.Intn(5), nil)
 		compressed := d.Params.Deflate && rng.Bool()
 		wp := payload
+		bfinal := compressed && rng.Intn(3) == 0
 		if compressed {
-			wp = def.Message(payload, 6, wire.EndSync)
+			if !bfinal {
+				wp = def.Message(payload, 6, wire.EndSync)
+			} else {
+				// the DEFLATE stream ends with a final block (RFC 7692 7.2.3.4) in the FIRST fragment; what follows
+				// it in the later fragments (the 0x00 behind the final block, empty fragments) carries no data, but
+				// the Pings between those fragments are Pings like any other
+				wp = def.Message(payload, 6, wire.EndBFinal)
+				r.Count("pings_between_the_fragments_behind_a_final_deflate_block", 1)
+			}
 		}
 		nf := 2 + rng.Intn(3)
 		off := 0
@@ -433,6 +442,14 @@ func c15Received(r *fw.R, d c15Desc) {
 			cn := len(wp) - off
 			if i < nf-1 {
 				cn = rng.Intn(cn + 1)
+			}
+			if bfinal {
+				switch {
+				case i == 0:
+					cn = len(wp) - 1
+				case i < nf-1:
+					cn = 0
+				}
 			}
 			f := wire.Frame{Fin: i == nf-1, Op: wire.OpCont, Payload: wp[off : off+cn], LenForm: -1}
 			if i == 0 {
@@ -461,6 +478,8 @@ func c15Received(r *fw.R, d c15Desc) {
 	}
 
 	var got int32
+	var readErr atomic.Value
+	readErr.Store("")
 	readerDone := make(chan struct{})
 	switch d.Reader {
 	case "CloseRead":
@@ -472,6 +491,7 @@ func c15Received(r *fw.R, d c15Desc) {
 			for {
 				_, _, err := c.Read(ctx)
 				if err != nil {
+					readErr.Store(err.Error())
 					return
 				}
 				atomic.AddInt32(&got, 1)
@@ -512,7 +532,7 @@ func c15Received(r *fw.R, d c15Desc) {
 	peer.Locked(func() {
 		gotP := peer.Conf.Pongs
 		if !ok {
-			r.Violate("C15/received-ping-not-answered", fmt.Sprintf("%s: %d Pings sent (first lengths %v), %d Pongs received within 15 s", what, len(want), slens, len(gotP)), "")
+			r.Violate("C15/received-ping-not-answered", fmt.Sprintf("%s: %d Pings sent (first lengths %v), %d Pongs received within 15 s (messages read: %d of %d; the reader stopped with: %q)", what, len(want), slens, len(gotP), atomic.LoadInt32(&got), nmsgs, readErr.Load()), "")
 			return
 		}
 		for i := range want {
